@@ -51,6 +51,14 @@ var helperFuncs = template.FuncMap{
 	"comment": func(s string) string {
 		return commentCleaner.Replace(s)
 	},
+	// Long string literal around arbitrary text: choose a delimiter the text cannot close
+	"longstring": func(s string) string {
+		delimiter := ""
+		for i := 0; strings.Contains(s, `"`+delimiter+"}"); i++ {
+			delimiter = fmt.Sprintf("EOS%d", i)
+		}
+		return "{" + delimiter + `"` + s + `"` + delimiter + "}"
+	},
 	"objectify": func(p Phase) string {
 		switch p {
 		case RequestPhase:
@@ -185,12 +193,13 @@ var responseObjectConditionTemplate = template.Must(
 
 var responseObjectTemplate = template.Must(
 	template.New("responseobject").
+		Funcs(helperFuncs).
 		Parse(
 			`
 if (obj.status == {{ .StatusCode }}) {{"{"}}
 	set obj.status = {{ .Status }};
-	set obj.http.Content-Type = "{{ .ContentType }}";
-	synthetic {{"{\""}}{{if .Content }}{{ .Content }}{{else}}{{ .Response }}{{end}}{{"\"}"}};
+	set obj.http.Content-Type = "{{ .ContentType | quote }}";
+	synthetic {{if .Content }}{{ .Content | longstring }}{{else}}{{ .Response | longstring }}{{end}};
 	return(deliver);
 {{"}"}}
 `,
